@@ -14,6 +14,7 @@ committed transactions, `Info.rows`). `Extends snap latest` = latest is snap aft
 commits. Property theorems only; lemmas in Gsu/Proofs/Db.lean.
 -/
 import Gsu.Proofs.DbStep
+import Gsu.Gen.Dbphys
 namespace Gsu.Props.C16
 open Gsu.Db
 
@@ -86,6 +87,14 @@ theorem no_loss_no_dup_partial (snap mid latest : Info) (n : Nat) (d : TDif)
     (hn : ∀ ov ∈ snap.idx, n + 1 ≤ ov.layers.length) (h : IAgree latest) :
     IAgree (latest.applyMerge n (snap.mergeCompute n)) :=
   iagree_applyMerge snap latest n (h1.trans (hlat ▸ extends_lay d mid hd)) hn h
+
+/-- persist never leaves a committed change unsaved by skipping its table: a skipped table has an
+empty base layer in every index (test of fixes/15b), and (G) the code uses that test -/
+theorem persist_skips_only_clean (ti : Info) (h : ti.modifiedWith true = false) :
+    ∀ ov ∈ ti.idx, ∀ k, (ov.layers.headD FMap.empty).get k = none :=
+  clean_of_not_modified ti h
+
+theorem gen_persist_checks_all_indexes : Gsu.Gen.Dbphys.persistChecksAllIndexes = true := rfl
 
 -- non-vacuity: a snapshot with two layers, one more commit, merge of the two older layers
 example : ∃ (latest snap : Overlay) (new : List Layer),
